@@ -1,5 +1,5 @@
 """Property registry: which rules decide which property, and what each check claims."""
-import r_own, r_shrink, r_reach, r_layout, r_retain
+import r_own, r_shrink, r_reach, r_layout, r_retain, r_num, r_index, r_growth, r_size, r_text
 
 RULE_DOC = {
     "R1": "no buffer access through a handle after it gave up its reference",
@@ -63,6 +63,9 @@ def rules_C05(ctx):
 
 def rules_C02(ctx):
     ctx.take_ts(["R-contract.Modifiable", "R-contract.Unique", "R-contract.realloc", "R-contract.set_len", "unclassified", "solver"])
+    # uniqueness probes license in-place writes only if the counter equals the number of handles:
+    # the counter-balance rules are necessary conditions of isolation
+    ctx.take_ts(["R2", "R3", "P1", "DUP"])
 
 
 def rules_C13(ctx):
@@ -81,6 +84,39 @@ def rules_C18(ctx):
     r_retain.rule_U2(ctx)
 
 
+def rules_C01(ctx):
+    r_text.rule_T1(ctx)
+    ctx.take_ts(["R-contract.kind="])
+    r_text.rule_T3(ctx)
+    r_text.rule_T4(ctx)
+    r_text.rule_T5(ctx)
+
+
+def rules_C06(ctx):
+    r_size.rule_checked_ctors(ctx)
+    r_size.rule_size_taint(ctx)
+    r_size.rule_layout_checked(ctx)
+    ctx.take_ts(["R-erratomic", "R2"])
+    r_layout.rule_null_checks(ctx)
+
+
+def rules_C07(ctx):
+    r_index.rule_validate_before_mutate(ctx)
+    r_index.rule_wrappers(ctx)
+    r_index.rule_unchecked_utf8(ctx)
+
+
+def rules_C12(ctx):
+    r_growth.rule_formula(ctx)
+    r_growth.rule_sites(ctx)
+
+
+def rules_C14(ctx):
+    r_num.rule_digit_tables(ctx)
+    r_num.rule_dispatch(ctx, want=[x for x in r_num.EXPECT if x not in ("bool", "char", "alloc::string::String", "LeanString", "f32", "f64")])
+    r_num.rule_into_repr(ctx)
+
+
 def rules_C08(ctx):
     r_reach.rule_C08(ctx)
     ctx.take_ts(["P1", "DUP"])
@@ -88,13 +124,27 @@ def rules_C08(ctx):
 
 def rules_C09(ctx):
     r_reach.rules_C09(ctx)
+    # integers: the requested capacity is exactly the digit count (C14 proves digit count = text length)
+    r_num.rule_into_repr(ctx)
 
 
 def rules_C10(ctx):
     r_reach.rule_C10(ctx)
+    # the first growing operation moves a static handle to storage that really has the room
+    r_layout.rule_reserve_post(ctx)
 
 
 PROPS = {
+    "C01": {"rules": rules_C01, "level": "other",
+            "explanation": "Five structural necessary conditions of 'reads back what was written, whatever the storage' (the behavioural equivalence with String itself is a value-level statement and is NOT decided): T1 writer/reader agreement on the tag byte - compiler-evaluated TextLen::TAG / StaticBuffer::TAG last memory byte (target endianness) = LastByte::HeapMarker / StaticMarker discriminants, inline tag = len|0xC0 at byte MAX_INLINE_SIZE-1 in new/empty/set_len, is_heap_buffer/is_static_buffer summaries true exactly for their kind, len/as_bytes decode with the same constants, tag ordering text < inline < heap < static; T2 every storage view cast is taken under the matching kind guard (typestate); T3 in every body that takes a mutable view (push_str, insert_str, remove, retain, 10 integer writers) set_len or the publishing guard lies on every path from each write to return; T4 every InlineBuffer::new call site is dominated by a proof that the text fits; T5 InlineBuffer::set_len writes the tag byte only when len < MAX_INLINE_SIZE."},
+    "C06": {"rules": rules_C06, "level": "other",
+            "explanation": "Checked constructors: Capacity / TextLen / StaticBuffer values are built only inside their `new`, behind `size <= MAX_LEN` with MAX_LEN evaluated for the target (2^56-1 on 64-bit); with that bound the unchecked header+capacity sum of realloc cannot wrap (constant arithmetic; on 32-bit the ALLOC_LIMIT edge must dominate realloc). Size taint: values derived from the public capacity/additional/min_capacity parameters and from size_hint lower bounds, propagated through local calls, reach only checked_*/saturating_* operations and the bound-checked constructors - never raw +,*,<<,- or wrapping_*/unchecked_* calls. The layout computation is checked_add + Layout::from_size_align; allocator results are null-tested and map to Err; every Err exit is effect-free (R-erratomic, R2)."},
+    "C07": {"rules": rules_C07, "level": "other",
+            "explanation": "Validate-before-mutate as a dominance property of Repr::{remove, insert_str, truncate}: every effect on the receiver (a local call taking &mut of the handle, a store through it) is dominated by the passing edge of `self.as_str().is_char_boundary(idx)` on the index parameter (and of `idx < len` for remove, `new_len < len` for truncate) - the predicates under which String's methods do not panic - and no explicit panic is reachable after an effect, so a rejected index has touched nothing. Public wrappers have no effect of their own and forward the index unchanged. Unchecked UTF-8 views occur only in the audited set; bytes copied into storage come from &str arguments."},
+    "C12": {"rules": rules_C12, "level": "other",
+            "explanation": "The growth rule's loop-free MIR is lifted to an expression and must normalise to max(G(len), len +sat additional) with G one of the spellings arithmetically equal to len + floor(len/2) (saturating, no overflow panic) - the property pins the value, so any other expression is a behavioural change. Every growth site applies it to (old LENGTH, caller's additional): reserve's in-place realloc takes amortized_growth(len(self), additional), all growing copies go through with_additional(self's text, additional), which allocates Capacity::new(amortized_growth(len(text), additional)); no exact-fit constructor is used to grow; push_str/insert_str reach allocation only through reserve(string.len())."},
+    "C14": {"rules": rules_C14, "level": "proof",
+            "explanation": "Digit-count tables decided for ALL values: each DigitCount::digit_count body is a loop-free comparison DAG; path enumeration with an interval for the parameter yields the exact partition of the type's range, which must cover the type, never fall through to `unreachable`, and give len(to_string()) at both endpoints of every sign-homogeneous interval (decimal width is monotone in |x|) - Python big integers, no sampling. usize/isize delegate through a lossless cast to the width-matching table. Dispatch: each of the 24 integer/NonZero castaway arms calls Repr::from_num::<X> on its own cast value. Writer consistency: digit_count(self) feeds with_capacity, and set_len; the work-type cast is lossless; LUT = 00..99; thresholds/divisors 10^4, 10^2, 10; 128-bit and NonZero forms delegate (itoa / get().into_repr())."},
     "C08": {"rules": rules_C08, "level": "proof",
             "explanation": "Call-graph proof over the resolved program: from Clone::clone, Clone::clone_from, From<&LeanString>::from and Repr::make_shallow_clone no allocation site, no copy primitive, no heap constructor and no user-code edge is reachable (leaves are core::* and alloc::alloc::dealloc only, no unresolved edge), the value returned by make_shallow_clone is core::ptr::read(self) on every path, and on the heap edge exactly one increment precedes that read (typestate P1/DUP). Holds for all lengths and storage states."},
     "C09": {"rules": rules_C09, "level": "other",
